@@ -337,14 +337,25 @@ theorem uintFromUintRef_fits {n : Nat} {r : List Nat} (h : r.length ≤ 8 * n) :
     uintFromUintRef n r = .ok (toLimbs n (beVal r)) := by
   unfold uintFromUintRef copyIntoTail
   simp only [List.length_replicate]
-  rw [if_pos ⟨by omega, by omega⟩]
+  rw [if_neg (by omega), if_pos ⟨by omega, by omega⟩]
   simp only [List.take_replicate, beVal_zeros_append]
 
 theorem uintFromUintRef_oversize {n : Nat} {r : List Nat} (h : 8 * n < r.length) :
-    uintFromUintRef n r = .panic := by
-  unfold uintFromUintRef copyIntoTail
+    uintFromUintRef n r = .err := by
+  unfold uintFromUintRef
   simp only [List.length_replicate]
-  rw [if_neg (by omega)]
+  rw [if_pos h]
+
+theorem uintFromUintRef_ne_panic (n : Nat) (r : List Nat) : uintFromUintRef n r ≠ .panic := by
+  by_cases h : r.length ≤ 8 * n
+  · rw [uintFromUintRef_fits h]; intro e; cases e
+  · rw [uintFromUintRef_oversize (by omega)]; intro e; cases e
+
+theorem derDecodeValue_ne_panic (n : Nat) (c : List Nat) (hlen : Nat) : derDecodeValue n c hlen ≠ .panic := by
+  unfold derDecodeValue
+  split
+  · intro e; cases e
+  · exact uintFromUintRef_ne_panic _ _
 
 /-! ### the decoder `from_der` -/
 
